@@ -210,11 +210,12 @@ func ParseBalanceCSV(out string) (*BalanceTable, error) {
 	section := "AL"
 	last := ""
 	for i, rec := range recs[1:] {
+		rec[0] = strings.TrimSpace(rec[0]) // an indented label is the same label
 		row := BalanceRow{Line: i + 2, Name: rec[0]}
 		idx := 1
 		if t.HasComm {
 			if len(rec) > 1 {
-				row.Comm = rec[1]
+				row.Comm = strings.TrimSpace(rec[1])
 			}
 			idx = 2
 		}
